@@ -48,8 +48,8 @@ func flipLeaf(r *rand.Rand, g *gen.Gen, doc interface{}) interface{} {
 	walk = func(v interface{}) {
 		switch t := v.(type) {
 		case map[string]interface{}:
-			for k, x := range t {
-				switch x.(type) {
+			for _, k := range sortedKeysOf(t) { // deterministic order: the slot is picked by index
+				switch x := t[k].(type) {
 				case map[string]interface{}, []interface{}:
 					walk(x)
 				default:
@@ -71,21 +71,7 @@ func flipLeaf(r *rand.Rand, g *gen.Gen, doc interface{}) interface{} {
 	if len(slots) == 0 {
 		return g.Doc(2)
 	}
-	// map iteration order is random: pick by sorted rendering to stay deterministic
-	best, bestKey := -1, ""
-	salt := uint32(r.Int31())
-	for i, s := range slots {
-		var k string
-		if s.m != nil {
-			k = "m/" + s.k + "/" + lib.JS(s.m)
-		} else {
-			k = fmt.Sprintf("l/%d/%s", s.i, lib.JS(s.l))
-		}
-		k = fmt.Sprintf("%08x", hash32(k, salt))
-		if best < 0 || k < bestKey {
-			best, bestKey = i, k
-		}
-	}
+	best := r.Intn(len(slots))
 	s := slots[best]
 	nv := g.Leaf()
 	if s.m != nil {
@@ -94,15 +80,6 @@ func flipLeaf(r *rand.Rand, g *gen.Gen, doc interface{}) interface{} {
 		s.l[s.i] = nv
 	}
 	return d
-}
-
-func hash32(s string, salt uint32) uint32 {
-	h := uint32(2166136261) ^ salt
-	for i := 0; i < len(s); i++ {
-		h ^= uint32(s[i])
-		h *= 16777619
-	}
-	return h
 }
 
 // historyPaths: shapes whose evaluation writes into operand lists (the history-sensitive ones) get extra weight.
